@@ -64,6 +64,12 @@ func TestVerifDriver(t *testing.T) {
 	vMain(vRun, func(do func(string, M)) {
 		rng := vRand(14)
 		n := vEnvInt("VERIF_N", 400)
+		// long inputs (an implementation may treat them differently, e.g. in chunks): lengths around 2^11 and 2^12
+		for _, l := range []int{2047, 2048, 2049, 2053, 2048 + 1 + rng.Intn(2000), 4099} {
+			b := make([]byte, l)
+			rng.Read(b)
+			do("b1t6.Encode", M{"bytes": vInts(b)})
+		}
 		for k := 0; k < n; k++ {
 			// byte strings of every length 0..40
 			l := k % 41
